@@ -94,16 +94,15 @@ func c07Random(c *mc.Ctx) {
 		g := &c07Gen{c: c, block: block, off: off}
 		restore := rtp.VerifSetRandom(g)
 		s := rtp.NewRandomSequencer()
+		first := s.NextSequenceNumber() // the seam stays in place: the start may be drawn lazily
 		restore()
-		if len(g.asked) != 1 {
-			c.Failf("random-seam", "NewRandomSequencer asked the generator %d times", len(g.asked))
+		for _, n := range g.asked {
+			if n > 1<<15 {
+				c.Failf("random-start-range", "the random start is drawn from [0,%d): start values of 2^15 or more are possible", n)
+			}
 		}
-		if g.asked[0] > 1<<15 {
-			c.Failf("random-start-range", "NewRandomSequencer draws from [0,%d): start values of 2^15 or more are possible", g.asked[0])
-		}
-		first := s.NextSequenceNumber()
 		if first >= 1<<15 {
-			c.Failf("random-start-range", "generator answered %d of [0,%d): first sequence number %d is not below 2^15", g.block*128+g.off, g.asked[0], first)
+			c.Failf("random-start-range", "generator answered %d (asked for %v): first sequence number %d is not below 2^15", g.block*128+g.off, g.asked, first)
 		}
 		if v := s.NextSequenceNumber(); v != first+1 {
 			c.Failf("successor", "random sequencer: %d followed by %d", first, v)
